@@ -19,6 +19,50 @@ theorem check_format_tie (fs : List Regex.Re) (val : List Char) :
   simp only [Id.run, bind, pure]
 
 
+/-! ## `_extract_enclosing_text` -/
+
+/-- a pure `for` loop without `return` whose body maps the loop-carried variables by `step` is `foldl step` -/
+theorem forLoop_pure_fold {α σ ρ : Type} (xs : List α) (s : σ) (body : α → σ → Id (Sum ρ σ)) (step : σ → α → σ)
+    (hbody : ∀ x s, body x s = pure (Sum.inr (step s x))) (k : σ → Id ρ) :
+    Py.forLoop (m := Id) xs s body k = k (xs.foldl step s) := by
+  induction xs generalizing s with
+  | nil => rfl
+  | cons x xs ih =>
+    simp only [Py.forLoop, List.foldl, hbody]
+    exact ih _
+
+open Secrets in
+/-- **`_extract_enclosing_text` as written in the source (a `while True` around two `for` loops) is the model's
+`extractEnclosingW` over the regenerated tables**, with the same fuel -/
+theorem extract_tie (fuel : Nat) (v h t : List Char) :
+    Src.extract_enclosing_text fuel v h t = extractEnclosing fuel v h t := by
+  unfold Src.extract_enclosing_text extractEnclosing
+  generalize headText = hs
+  generalize tailText = ts
+  induction fuel generalizing v h t with
+  | zero => rfl
+  | succ n ih =>
+    simp only [Py.whileLoop, extractEnclosingW]
+    rw [forLoop_pure_fold hs (h, v) _
+      (fun hv t => if startsWith hv.2 t then (hv.1 ++ t, hv.2.drop t.length) else hv)]
+    · rw [forLoop_pure_fold ts _ _
+        (fun tv t => if endsWith tv.2 t then (t ++ tv.1, tv.2.take (tv.2.length - t.length)) else tv)]
+      · simp only [stripPassW, stripHeads, stripTails]
+        split
+        · next hc => simp only [hc, ↓reduceIte]; rfl
+        · next hc => simp only [hc, Bool.false_eq_true, ↓reduceIte]; exact ih _ _ _
+      · intro x s
+        obtain ⟨a, b⟩ := s
+        by_cases hx : endsWith b x = true <;> simp [hx]
+    · intro x s
+      obtain ⟨a, b⟩ := s
+      by_cases hx : startsWith b x = true <;> simp [hx]
+
+end Netconan.SrcTie
+
+namespace Netconan.SrcTie
+open Netconan Netconan.Generated
+
 /-! ## `_anonymize_value` -/
 open Secrets in
 /-- the six format `if`s of the source render the pseudonym as `renderAs` does -/
@@ -58,6 +102,7 @@ open Secrets in
 theorem anonymize_value_tie (x : Ext) (fs : List Regex.Re) (salt raw : List Char) (lk : Lookup) :
     Src.anonymize_value x fs raw salt lk = anonymizeValue x fs salt raw lk := by
   unfold Src.anonymize_value anonymizeValue
+  simp only [extract_tie]
   generalize extractEnclosing (raw.length + 1) raw [] [] = e
   obtain ⟨h, val, t⟩ := e
   simp only []
